@@ -5,7 +5,15 @@ import "encoding/hex"
 // Rand is splitmix64; the only source of randomness in the harness.
 type Rand struct{ s uint64 }
 
-func NewRand(seed uint64) *Rand { return &Rand{s: seed*0x9E3779B97F4A7C15 + 0x1234567} }
+// NewRand hashes the seed into the initial state (the splitmix64 finalizer applied twice): with state = seed·G + c the stream
+// of seed s+1 would be the stream of seed s shifted by one draw, and consecutive VERIF_SEED values would explore almost the
+// same cases.
+func NewRand(seed uint64) *Rand {
+	r := &Rand{s: seed*0x9E3779B97F4A7C15 + 0x1234567}
+	a := r.U64()
+	b := r.U64()
+	return &Rand{s: a ^ (b<<32 | b>>32) ^ (seed * 0xD6E8FEB86659FD93)}
+}
 
 func (r *Rand) U64() uint64 {
 	r.s += 0x9E3779B97F4A7C15
